@@ -4,11 +4,13 @@ import glob, json, os
 rows = []
 for f in sorted(glob.glob("/verif/seeded/*/meta.json")):
     m = json.load(open(f))
-    rows.append("| %s | %s | %s | %s | %s |" % (m["id"], m["breaks_property"], m["needs_to_manifest"].replace("|", "/"),
-                ", ".join(m["caught_by"]) or "**missed**",
-                "; ".join("%s exit %s" % (c, v["exit"]) for c, v in m["checks"].items())))
+    cfi = m.get("concrete_failing_input", {})
+    rows.append("| %s | %s | %s | %s | %s | %s |" % (m["id"], m["breaks_property"], m["needs_to_manifest"].replace("|", "/"),
+                ", ".join("%s%s" % (c, "" if cfi.get(c, True) else " (no-failing-input-found)") for c in m["caught_by"]) or "**missed**",
+                "; ".join("%s exit %s" % (c, v["exit"]) for c, v in m["checks"].items()),
+                (m.get("check_strengthened_after_this_change") or "").replace("|", "/")))
 open("/verif/seeded/README.md", "w").write(
     "# Seeded changes\n\nEach directory holds patch.diff, the demonstration and meta.json (see DESIGN.md section 16).\n"
     "All pass the 503-test baseline; each demonstration fails with the change and passes without it.\n\n"
-    "| id | property | needs to manifest | caught by | checks run |\n|---|---|---|---|---|\n" + "\n".join(rows) + "\n")
+    "| id | property | needs to manifest | caught by | checks run | check strengthened after this change |\n|---|---|---|---|---|---|\n" + "\n".join(rows) + "\n")
 print(len(rows), "seeded changes")
